@@ -20,10 +20,11 @@ VARIABLES
     hm,         \* hint mode of this case
     pc,         \* "run" | "done"
     post,       \* calls made after the first "E"
+    nfut,       \* futures made by closures so far (they are numbered for the poll log)
     hist,       \* the calls so far: [p |-> polls, s |-> status, i |-> items, h |-> hint]
     cfg0        \* the case: [tree, scripts, hm, h0]
 
-ivars == <<ist, hm, pc, post, hist, cfg0>>
+ivars == <<ist, hm, pc, post, nfut, hist, cfg0>>
 vars == <<mvars, ivars>>
 
 -----------------------------------------------------------------------------
@@ -139,9 +140,9 @@ PullN(nd, st, env) ==
       [] k = "src" /\ nd.f \notin {"once", "empty"} ->
            LET s == nd.n
                a == IF env.rem[s] = <<>> THEN ENDV ELSE Head(env.rem[s])
-           IN Ret(a, st, [rem |-> [env.rem EXCEPT ![s] = IF @ = <<>> THEN @ ELSE Tail(@)],
-                          eos |-> IF a = ENDV THEN env.eos \cup {s} ELSE env.eos,
-                          polls |-> Append(env.polls, <<s, a>>)])
+           IN Ret(a, st, [env EXCEPT !.rem = [env.rem EXCEPT ![s] = IF @ = <<>> THEN @ ELSE Tail(@)],
+                                     !.eos = IF a = ENDV THEN env.eos \cup {s} ELSE env.eos,
+                                     !.polls = Append(env.polls, <<s, a>>)])
       \* map.rs / inspect.rs / stream.rs over stream_compat.rs: the answer passes through
       [] k = "map" -> Ret(IF IsItem(r.a) THEN Fn(nd.f, r.a) ELSE r.a, st1, r.env)
       [] k \in {"inspect", "compat"} -> Ret(r.a, st1, r.env)
@@ -203,10 +204,12 @@ PullN(nd, st, env) ==
       [] k = "filter_map_async" ->
            IF st.v # <<>>
            THEN LET fu == st.v[1]
-                IN IF fu.p > 0 THEN Ret(PEND, [st EXCEPT !.v = <<[fu EXCEPT !.p = @ - 1]>>], Logged(env, -1, PEND))
-                   ELSE IF fu.o # <<>> THEN Ret(fu.o[1], [st EXCEPT !.v = <<>>], Logged(env, -1, fu.o[1]))
-                   ELSE PullN(nd, [st EXCEPT !.v = <<>>], Logged(env, -1, NONE))
-           ELSE IF IsItem(r.a) THEN PullN(nd, [st1 EXCEPT !.v = <<FutOf(nd.f, r.a)>>], r.env)
+                IN IF fu.p > 0 THEN Ret(PEND, [st EXCEPT !.v = <<[fu EXCEPT !.p = @ - 1]>>], Logged(env, -fu.id, PEND))
+                   ELSE IF fu.o # <<>> THEN Ret(fu.o[1], [st EXCEPT !.v = <<>>], Logged(env, -fu.id, fu.o[1]))
+                   ELSE PullN(nd, [st EXCEPT !.v = <<>>], Logged(env, -fu.id, NONE))
+           ELSE IF IsItem(r.a)
+           THEN PullN(nd, [st1 EXCEPT !.v = <<[p |-> FutOf(nd.f, r.a).p, o |-> FutOf(nd.f, r.a).o, id |-> r.env.nf + 1]>>],
+                      [r.env EXCEPT !.nf = @ + 1])
            ELSE Ret(r.a, st1, r.env)
       \* chain.rs: the (fused) first is polled on every call
       [] k = "chain" ->
@@ -317,7 +320,7 @@ HintN(nd, st, env) ==
       [] OTHER -> <<0, -1>>       \* futures have no size_hint
 
 -----------------------------------------------------------------------------
-Env0 == [rem |-> rem, eos |-> eos, polls |-> <<>>]
+Env0 == [rem |-> rem, eos |-> eos, polls |-> <<>>, nf |-> nfut]
 
 Init ==
     \E c \in Cases : \E m \in HMS :
@@ -327,6 +330,7 @@ Init ==
         /\ hm = m
         /\ pc = "hint0"
         /\ post = 0
+        /\ nfut = 0
         /\ hist = <<>>
         /\ cfg0 = [tree |-> c.tree, scripts |-> c.scripts, hm |-> m]
 
@@ -337,7 +341,7 @@ Hint0 ==
        IN /\ MHint0(h)
           /\ cfg0' = [tree |-> cfg0.tree, scripts |-> cfg0.scripts, hm |-> cfg0.hm, h0 |-> h]
     /\ pc' = "run"
-    /\ UNCHANGED <<ist, hm, post, hist>>
+    /\ UNCHANGED <<ist, hm, post, nfut, hist>>
 
 \* the driver stops at the first "E"; a FusedPull is polled twice more
 Extra == IF fusedT /\ ~IsFuture(tree) THEN 2 ELSE 0
@@ -349,6 +353,7 @@ Call ==
            p2 == IF fin > 0 THEN post + 1 ELSE post
        IN /\ MCall(r.env.polls, r.s, r.i, h)
           /\ ist' = r.st
+          /\ nfut' = r.env.nf
           /\ hist' = Append(hist, [p |-> r.env.polls, s |-> r.s, i |-> r.i, h |-> h])
           /\ post' = p2
           /\ pc' = IF (r.s = "E" \/ fin > 0) /\ p2 >= Extra THEN "done" ELSE "run"
